@@ -674,4 +674,79 @@ def _nzq(t):
     return re.sub(r"\s+", "", t)
 
 
-RULES = [rule_recycle_gate, rule_node_items, rule_dead_before_return, rule_identity, rule_schema, rule_key_level_flag]
+def rule_state_in_key(P):
+    """a compute-table entry may be reused by any later call of the same operation object: what it stores must be a function of its key alone.  An
+    operation whose cached recursion reads members that a per-call set-up method rewrites (saturation: the split of *this call's* relation into
+    top_exactly[k] / top_at_or_below[k]) caches results that are valid for that relation only, while the key holds a level and two nodes"""
+    R = RuleResult("ct.state-in-key", "in every operation class with compute-table entry types: no member that a set-up method (one that neither looks up nor adds entries, and is not a constructor) rewrites is read by the cached recursion — unless the caller of the set-up invalidates the class's entries")
+    by_cls = {}
+    for f in P.fns.values():
+        if f.get("cfg") and f.get("cls") and f["file"].startswith("operations/"):
+            by_cls.setdefault(f["cls"], []).append(f)
+    n = 0
+    for cls, fs in sorted(by_cls.items()):
+        info = {}
+        for f in fs:
+            nm = f["q"].split("::")[-1]
+            rd, wr, ct, callees, inval = set(), set(), False, set(), False
+            for b in f["cfg"]["blocks"]:
+                for e in b["ev"]:
+                    if e["k"] == "call":
+                        q = e["q"]
+                        if q.endswith("::findCT") or q.endswith("::addCT"):
+                            ct = True
+                        if re.search(r"removeAll|markForDestroy|invalidate|removeStales", q):
+                            inval = True
+                        if q.rsplit("::", 1)[0] == f["q"].rsplit("::", 1)[0]:
+                            callees.add(q.split("::")[-1])
+                        for t in [str(e.get("recv") or "")] + list(e.get("args") or []):
+                            rd |= set(re.findall(r"this->(\w+)\[", t))
+                        m = re.match(r"this->(\w+)\[", str(e.get("recv") or ""))
+                        if m and q.split("::")[-1] in ("set", "operator=", "attach", "set_and_link"):
+                            wr.add(m.group(1))
+                    elif e["k"] == "store" and e.get("base") == "this":
+                        wr.add(e["member"].split("::")[-1])
+                if b.get("cond"):
+                    rd |= set(re.findall(r"this->(\w+)\[", b["cond"]["text"]))
+            d = info.setdefault(nm, {"rd": set(), "wr": set(), "ct": False, "callees": set(), "inval": False, "ctor": False, "f": f})
+            d["rd"] |= rd
+            d["wr"] |= wr
+            d["ct"] |= ct
+            d["callees"] |= callees
+            d["inval"] |= inval
+            d["ctor"] |= bool(f.get("ctor") or f.get("dtor"))
+        if not any(d["ct"] for d in info.values()):
+            continue
+        n += 1
+        # methods reachable from a CT-using method inside the class
+        reach = {m_ for m_, d in info.items() if d["ct"]}
+        changed = True
+        while changed:
+            changed = False
+            for m_ in list(reach):
+                for c in info[m_]["callees"]:
+                    if c in info and c not in reach:
+                        reach.add(c)
+                        changed = True
+        cached_reads = set().union(*[info[m_]["rd"] for m_ in reach]) if reach else set()
+        setups = {m_: d for m_, d in info.items() if not d["ctor"] and not d["ct"] and m_ not in reach and d["wr"]}
+        R.functions.add(cls)
+        R.paths += 1
+        clash = {(m_, v) for m_, d in setups.items() for v in d["wr"] & cached_reads}
+        callers_inval = any(d["inval"] for d in info.values() if d["callees"] & set(setups))
+        iid = "%s: cached recursion reads only key-determined state" % cls.replace(M, "")[:90]
+        if not clash or callers_inval:
+            R.ok(iid, where(fs[0]))
+        else:
+            m_, v = sorted(clash)[0]
+            f0 = info[m_]["f"]
+            R.fail(iid, where(f0), Finding(R.rule, f0["file"], base_name(f0["q"]), "state:" + ",".join(sorted({v_ for _, v_ in clash})),
+                   "%s rewrites %s for each call, and the cached recursion (%s) reads it: entries added during one call are returned during the next although they were computed for another relation — the key does not say which" % (
+                       m_, sorted({v_ for _, v_ in clash}), ", ".join(sorted(m2 for m2 in reach if info[m2]["rd"] & {v_ for _, v_ in clash}))), f0["line"]))
+    if n < 15:
+        raise AnalysisBroken("ct.state-in-key: only %d operation classes with compute-table entries found, expected ≥15" % n)
+    R.require_floor(15, "operation classes with compute-table entries")
+    return R
+
+
+RULES = [rule_recycle_gate, rule_node_items, rule_dead_before_return, rule_identity, rule_schema, rule_key_level_flag, rule_state_in_key]
